@@ -348,6 +348,17 @@ def load_findings():
     return json.load(open(p))["findings"]
 
 
+def merge_findings():
+    """tools step (never at check time): known_findings.d/*.json -> known_findings.json"""
+    d = os.path.join(VERIF, "known_findings.d")
+    allf = []
+    for f in sorted(os.listdir(d)):
+        if f.endswith(".json"):
+            allf += json.load(open(os.path.join(d, f)))["findings"]
+    json.dump({"findings": allf}, open(os.path.join(VERIF, "known_findings.json"), "w"), indent=1)
+    return allf
+
+
 def write_replay(pid, payload):
     os.makedirs(os.path.join(VERIF, "replays"), exist_ok=True)
     blob = json.dumps(payload, sort_keys=True, default=str, indent=1)
@@ -431,3 +442,11 @@ def pmap(fn, items, jobs=None, chunksize=64):
     import multiprocessing as mp
     with mp.get_context("fork").Pool(jobs) as pool:
         return pool.map(fn, items, chunksize=chunksize)
+
+
+def load_corpus(pid):
+    """minimised past failures for a property: corpus/<pid>/*.json, each a case dict (run first)"""
+    d = os.path.join(VERIF, "corpus", pid)
+    if not os.path.isdir(d):
+        return []
+    return [json.load(open(os.path.join(d, f))) for f in sorted(os.listdir(d)) if f.endswith(".json")]
